@@ -381,7 +381,9 @@ class TimeTreeModel(AbstractTreeModel):
             for node in self.tree.leaf_node_iter():
                 leaf_heights[node.index] = max_date - dates_by_id[node.taxon.label]
 
-        self.sampling_times = torch.tensor(leaf_heights)
+        self.sampling_times = torch.tensor(
+            leaf_heights, dtype=getattr(self._internal_heights, 'dtype', None)
+        )
 
     def update_traversals(self):
         super().update_traversals()
